@@ -5,11 +5,12 @@
 # (CHECK_SCRATCH: binaries, evidence and replays below the scratch directory) and the
 # scratch directory is removed. Exit status = the check's (1: the change is detected).
 patch="$1"; prop="$2"; shift 2
+V="$(dirname "$(readlink -f "$0")")"
 scratch=$(mktemp -d /tmp/trymut.XXXXXX)
 mkdir -p $scratch/repo
 git -C /repo archive HEAD | tar -x -C $scratch/repo || { rm -rf $scratch; exit 2; }
 ( cd $scratch/repo && patch -p1 -s < "$patch" ) || { echo "patch does not apply"; rm -rf $scratch; exit 2; }
-CHECK_SCRATCH=$scratch /verif/check "$prop" --tier quick "$@" 2>&1 | grep -a -E "VIOLATION|KNOWN|tier=|BUILD|HANG|  [a-z-]+/" | cut -c1-400 | head -20
+CHECK_SCRATCH=$scratch $V/check "$prop" --tier quick "$@" 2>&1 | grep -a -E "VIOLATION|KNOWN|tier=|BUILD|HANG|  [a-z-]+/" | cut -c1-400 | head -20
 rc=${PIPESTATUS[0]}
 rm -rf $scratch
 exit $rc
